@@ -1,0 +1,116 @@
+//! Verification door (cargo feature `verif`, off by default).
+//!
+//! Public, plain-data wrappers around crate-private items, plus a few observation /
+//! injection hooks that the production build does not contain. Used only by the
+//! external verification harness; nothing here is reachable with the feature off.
+
+use crate::core::Core;
+use crate::forwarder::TcpConnector;
+use crate::{forwarder, log_utils, net_utils, tcp_forwarder, tunnel};
+use std::net::{IpAddr, SocketAddr};
+
+/// Hooks consulted by production code paths under `cfg(feature = "verif")`
+pub mod hooks {
+    use std::collections::HashMap;
+    use std::io;
+    use std::net::SocketAddr;
+    use std::sync::Mutex;
+
+    #[derive(Default)]
+    pub struct State {
+        /// host name -> scripted resolver answer (`Err` = resolver failure)
+        pub resolver: HashMap<String, Result<Vec<SocketAddr>, String>>,
+        /// every address `TcpForwarder::connect` was about to connect to
+        pub tcp_connects: Vec<SocketAddr>,
+        /// when set, outbound TCP connects are not performed: the attempt is recorded and
+        /// fails with the given raw OS error
+        pub stub_tcp_connect_errno: Option<i32>,
+    }
+
+    lazy_static::lazy_static! {
+        pub static ref STATE: Mutex<State> = Mutex::new(State::default());
+    }
+
+    pub fn reset() {
+        *STATE.lock().unwrap() = State::default();
+    }
+
+    pub(crate) async fn lookup_host(
+        host: &str,
+        port: u16,
+    ) -> io::Result<std::vec::IntoIter<SocketAddr>> {
+        let scripted = STATE.lock().unwrap().resolver.get(host).cloned();
+        match scripted {
+            Some(Ok(x)) => Ok(x.into_iter()),
+            Some(Err(e)) => Err(io::Error::new(io::ErrorKind::Other, e)),
+            None => tokio::net::lookup_host(format!("{}:{}", host, port))
+                .await
+                .map(|x| x.collect::<Vec<_>>().into_iter()),
+        }
+    }
+
+    pub(crate) fn on_tcp_connect(peer: &SocketAddr) -> Option<io::Error> {
+        let mut st = STATE.lock().unwrap();
+        st.tcp_connects.push(*peer);
+        st.stub_tcp_connect_errno.map(io::Error::from_raw_os_error)
+    }
+}
+
+pub fn is_global_ip(ip: IpAddr) -> bool {
+    net_utils::is_global_ip(&ip)
+}
+
+pub fn rfc1071_checksum(bytes: &[u8]) -> u16 {
+    net_utils::rfc1071_checksum(bytes)
+}
+
+/// Destination of a TCP connect request as `TcpConnection::destination` produces it
+pub enum VTcpDestination {
+    Address(SocketAddr),
+    HostName(String, u16),
+}
+
+/// Small enum view of `tunnel::ConnectionError` (and of success)
+#[derive(Debug, Clone, PartialEq, Eq)]
+pub enum VConnectOutcome {
+    Connected,
+    Io(String),
+    Authentication,
+    Timeout,
+    HostUnreachable,
+    DnsNonroutable,
+    DnsLoopback,
+    Other,
+}
+
+pub(crate) fn outcome_of_error(e: &tunnel::ConnectionError) -> VConnectOutcome {
+    match e {
+        tunnel::ConnectionError::Io(e) => VConnectOutcome::Io(e.to_string()),
+        tunnel::ConnectionError::Authentication(_) => VConnectOutcome::Authentication,
+        tunnel::ConnectionError::Timeout => VConnectOutcome::Timeout,
+        tunnel::ConnectionError::HostUnreachable => VConnectOutcome::HostUnreachable,
+        tunnel::ConnectionError::DnsNonroutable => VConnectOutcome::DnsNonroutable,
+        tunnel::ConnectionError::DnsLoopback => VConnectOutcome::DnsLoopback,
+        tunnel::ConnectionError::Other(_) => VConnectOutcome::Other,
+    }
+}
+
+/// Run the real `TcpForwarder::connect` of a [`Core`] for the destination.
+pub async fn tcp_forwarder_connect(core: &Core, destination: VTcpDestination) -> VConnectOutcome {
+    let connector: Box<dyn TcpConnector> =
+        Box::new(tcp_forwarder::TcpForwarder::new(core.verif_context()));
+    let meta = forwarder::TcpConnectionMeta {
+        client_address: IpAddr::from([203, 0, 113, 1]),
+        destination: match destination {
+            VTcpDestination::Address(a) => net_utils::TcpDestination::Address(a),
+            VTcpDestination::HostName(h, p) => net_utils::TcpDestination::HostName((h, p)),
+        },
+        auth: None,
+        tls_domain: String::new(),
+        user_agent: None,
+    };
+    match connector.connect(log_utils::IdChain::empty(), meta).await {
+        Ok(_) => VConnectOutcome::Connected,
+        Err(e) => outcome_of_error(&e),
+    }
+}
